@@ -445,6 +445,23 @@ Proof.
   repeat split; ring.
 Qed.
 
+Lemma sq_pos z : z <> 0 -> 0 < z * z.
+Proof.
+  intros H. pose proof (Z.square_nonneg z) as H0.
+  assert (z * z <> 0) by (intro E; apply Z.mul_eq_0 in E; tauto). lia.
+Qed.
+
+Lemma sumsq3_pos a b c : a <> b \/ b <> c -> 
+  0 < (a - b) * (a - b) + (b - c) * (b - c) + (c - a) * (c - a).
+Proof.
+  intros H.
+  pose proof (Z.square_nonneg (a - b)). pose proof (Z.square_nonneg (b - c)).
+  pose proof (Z.square_nonneg (c - a)).
+  destruct H as [H|H].
+  - pose proof (sq_pos (a - b)). lia.
+  - pose proof (sq_pos (b - c)). lia.
+Qed.
+
 Lemma triangle_positive_definite x1 y1 x2 y2 x3 y3 :
   let c := [(x1, y1); (x2, y2); (x3, y3)] in
   a00 c <> 0 -> pd_contour c = true.
@@ -454,22 +471,27 @@ Proof.
   cbv zeta in *.
   set (c := [(x1, y1); (x2, y2); (x3, y3)]) in *.
   apply pd_contour_spec.
-  assert (Hsq : 0 < a00 c * a00 c) by nia.
+  assert (Hsq : 0 < a00 c * a00 c) by (apply sq_pos; exact Ha).
   assert (Hx : 0 < (x1 - x2) * (x1 - x2) + (x2 - x3) * (x2 - x3)
                    + (x3 - x1) * (x3 - x1)).
-  { destruct (Z.eq_dec x1 x2) as [E1|E1];
-      [destruct (Z.eq_dec x2 x3) as [E2|E2]|]; [|nia|nia].
+  { apply sumsq3_pos.
+    destruct (Z.eq_dec x1 x2) as [E1|E1]; [|left; exact E1].
+    destruct (Z.eq_dec x2 x3) as [E2|E2]; [|right; exact E2].
     exfalso. apply Ha. rewrite Ha00. subst x2 x3. ring. }
   assert (Hy : 0 < (y1 - y2) * (y1 - y2) + (y2 - y3) * (y2 - y3)
                    + (y3 - y1) * (y3 - y1)).
-  { destruct (Z.eq_dec y1 y2) as [E1|E1];
-      [destruct (Z.eq_dec y2 y3) as [E2|E2]|]; [|nia|nia].
+  { apply sumsq3_pos.
+    destruct (Z.eq_dec y1 y2) as [E1|E1]; [|left; exact E1].
+    destruct (Z.eq_dec y2 y3) as [E2|E2]; [|right; exact E2].
     exfalso. apply Ha. rewrite Ha00. subst y2 y3. ring. }
   assert (H6 : 0 < a00 c * a00 c * a00 c * a00 c * a00 c * a00 c).
   { replace (a00 c * a00 c * a00 c * a00 c * a00 c * a00 c)
       with ((a00 c * a00 c) * ((a00 c * a00 c) * (a00 c * a00 c))) by ring.
     apply Z.mul_pos_pos; [exact Hsq|apply Z.mul_pos_pos; exact Hsq]. }
-  repeat split; nia.
+  pose proof (Z.mul_pos_pos _ _ Hsq Hx) as Px.
+  pose proof (Z.mul_pos_pos _ _ Hsq Hy) as Py.
+  rewrite <- H20 in Px. rewrite <- H02 in Py.
+  repeat split; lia.
 Qed.
 
 Example ex_pd :
